@@ -131,7 +131,15 @@ def diagnose(chk, model, bases, work):
     # two 1-D base observations, restricted to two of their q values (q*size = 0.4 and 5): a
     # sub-observation of what was recorded, to keep the candidate sweep cheap
     dbase = []
-    for b in [x for x in bases if x["model"] == model and x["dim"] == "1d" and not x["res"]["raised"]][:2]:
+    def mesh_points(b):
+        n = 1
+        for k, v in b["pars"].items():
+            if k.endswith("_pd_n"):
+                n *= max(1, int(float(v)))
+        return n
+    cands = [x for x in bases if x["model"] == model and x["dim"] == "1d" and not x["res"]["raised"]]
+    cands.sort(key=lambda b: (mesh_points(b) > 100, b["tid"]))       # large meshes last: the sweep has many requests
+    for b in cands[:2]:
         d = dict(b, ev="DiagBase", qs={"q": [b["qs"]["q"][1], b["qs"]["q"][3]]})
         d["res"] = dict(b["res"], I=[b["res"]["I"][1], b["res"]["I"][3]])
         dbase.append(d)
